@@ -162,6 +162,19 @@ def flat_vars(obj):
     raise TypeError("unexpected answer object %r" % type(obj))
 
 
+class _Verdict:
+    """what RecSolver.solve() returns in capture mode: falsy (a solver that branches on it takes the 'no solution'
+    branch, as before), and recognisable by identity in what solve_<p> hands back"""
+    def __bool__(self):
+        return False
+
+    def __repr__(self):
+        return "<verdict of solve()>"
+
+
+CAPTURE_VERDICT = _Verdict()
+
+
 class RecSolver(Solver):
     """public-API subclass: records itself; solve()/find_answer() are answered from
     the captured program by z3 through our own translation (mode 'solve') or not
@@ -175,18 +188,23 @@ class RecSolver(Solver):
         super().__init__()
         self.solve_called = False
         self.key_sols = None
+        self.solve_log = []      # (api, #variables, #constraints, answer-key flags) at every solve()/find_answer() call
         RecSolver.instances.append(self)
 
-    def find_answer(self, backend=None):
+    def _log(self, api):
         self.solve_called = True
+        self.solve_log.append((api, len(self.variables), len(self.constraints), tuple(self.is_answer_key)))
+
+    def find_answer(self, backend=None):
+        self._log("find_answer")
         if RecSolver.mode == "capture":
-            return False
+            return CAPTURE_VERDICT
         return z3_check(self)
 
     def solve(self, backend=None):
-        self.solve_called = True
+        self._log("solve")
         if RecSolver.mode == "capture":
-            return False
+            return CAPTURE_VERDICT
         kids = [i for i, k in enumerate(self.is_answer_key) if k]
         self.status = []
         sols = all_key_solutions(self, kids, RecSolver.cap, RecSolver.timeout_ms, self.status)
